@@ -216,10 +216,10 @@ PROPS = {
     "C18": {
         "extra_imports": ["Gofasta.Lemmas.SchedCommands", "Gofasta.Props.ColsSam", "Gofasta.Lemmas.Refusals", "Gofasta.Props.Cli", "Gofasta.Props.Pipes", "Gofasta.Lemmas.SchedProofs", "Gofasta.Lemmas.SchedChainProofs"],
         "extra_theorems": ["Gofasta.Lemmas.SchedCommands.snps_width_error_reported", "Gofasta.Lemmas.SchedCommands.snps_aggregate_width_error_reported", "Gofasta.Lemmas.SchedCommands.updown_list_width_error_reported", "Gofasta.Lemmas.SchedCommands.variants_width_error_reported", "Gofasta.Lemmas.SchedCommands.variants_aggregate_width_error_reported", "Gofasta.Lemmas.SchedCommands.toma_read_error_reported", "Gofasta.Lemmas.SchedCommands.sam_variants_read_error_reported", "Gofasta.Lemmas.SchedCommands.snps_outcome", "Gofasta.Lemmas.SchedCommands.updown_list_outcome", "Gofasta.Lemmas.SchedCommands.variants_outcome", "Gofasta.Props.Cols.checkArgs_translated", "Gofasta.Lemmas.SchedChain.chain_error_reported", "Gofasta.Lemmas.SchedChain.chain_no_deadlock", "Gofasta.Lemmas.Sched.error_reported", "Gofasta.Lemmas.Sched.maximal_run_error", "Gofasta.Lemmas.Sched.no_deadlock", "Gofasta.Props.Pipes.drivers_conform", "Gofasta.Lemmas.Refusals.fails_unequal_rows", "Gofasta.Lemmas.Refusals.readFasta_unequal_rows", "Gofasta.Lemmas.Refusals.readFasta_ok_widths", "Gofasta.Lemmas.Refusals.trailing_header_refused", "Gofasta.Lemmas.Refusals.trailing_header_commands_refused", "Gofasta.Lemmas.Refusals.fails_trailing_header", "Gofasta.Lemmas.Refusals.fails_single_header", "Gofasta.Lemmas.Refusals.snpsOnText_error_iff", "Gofasta.Lemmas.Refusals.listOnText_error_iff", "Gofasta.Lemmas.Refusals.trOnText_error_iff", "Gofasta.Lemmas.Refusals.closestOnText_error_iff", "Gofasta.Lemmas.Refusals.varCommand_error_iff", "Gofasta.Lemmas.Refusals.snpsOnText_valid", "Gofasta.Lemmas.Refusals.listOnText_valid", "Gofasta.Lemmas.Refusals.trOnText_valid", "Gofasta.Lemmas.Refusals.checkArgs_none_iff", "Gofasta.Props.Cli.topranking_defaults", "Gofasta.Props.Cli.window_defaults", "Gofasta.Props.Cli.wiring"],
-        "streams": {"C18": (500, 4000)},
+        "streams": {"C18": (1000, 4000)},
         "thorough_seeds": 3,
         "cli": True,
-        "rule": "for each of 9 command lines of the gofasta binary a valid input set is built, then one corruption is applied: shortened / lengthened row or non-IUPAC "
+        "rule": "the first 738 cases of a run walk through the whole product command x corruption x record (first, middle, last) x input file; the rest are random. For each of 9 command lines of the gofasta binary a valid input set is built, then one corruption is applied: shortened / lengthened row or non-IUPAC "
                 "symbol at the first, middle or last record of any FASTA input; missing or empty input file; empty SAM; header-less SAM (toMultiAlign); reference and "
                 "alignment / query and target of different widths (both directions); two records in --reference; empty CSV; CSV with a foreign header; windows "
                 "0..L, 1..L+1, L+1.., 5..4, ..0; annotation suffix .txt; topranking without any size/dist option; 1 in 12 cases is left valid and must exit 0; "
